@@ -75,6 +75,7 @@ type runViolation struct {
 	Hash      string          `json:"hash"`
 	Trace     []string        `json:"trace"`
 	Known     bool            `json:"known"`
+	Race      bool            `json:"race"`
 }
 
 type sample struct {
@@ -198,6 +199,17 @@ func (b *build) runWorker(s *spec, timeout time.Duration, extraEnv ...string) (*
 	defer os.Remove(s.Out)
 	cmd := exec.Command(b.worker, "-test.run", "^TestWorker$", "-test.timeout", "0", "-test.cpu", "4")
 	cmd.Env = append(os.Environ(), "VSIM_SPEC="+sp)
+	if b.race {
+		logp := filepath.Join(b.scratch, fmt.Sprintf("race-%d", id))
+		cmd.Env = append(cmd.Env, "GORACE=log_path="+logp+" halt_on_error=0", "VSIM_RACE_LOG="+logp)
+		defer func() {
+			if ms, _ := filepath.Glob(logp + ".*"); ms != nil {
+				for _, m := range ms {
+					os.Remove(m)
+				}
+			}
+		}()
+	}
 	cmd.Env = append(cmd.Env, extraEnv...)
 	var buf bytes.Buffer
 	cmd.Stdout = &buf
@@ -346,6 +358,7 @@ type agg struct {
 	rule             string
 	expect           []string
 	knownHits        map[string]int
+	raceRuns         int
 }
 
 func newAgg() *agg {
@@ -395,50 +408,74 @@ func runCheck(c *checkCfg) int {
 			knownSigs = append(knownSigs, knownSig{k.Property, k.Kind, k.Signature})
 		}
 	}
-	deadline := time.Now().Add(time.Duration(c.budget * float64(time.Second)))
-	var mu sync.Mutex
-	next := 0
-	stop := false
-	var wg sync.WaitGroup
-	for w := 0; w < c.workers; w++ {
-		wg.Add(1)
-		go func() {
-			defer wg.Done()
-			for {
-				mu.Lock()
-				if stop || time.Now().After(deadline) || (c.maxRuns > 0 && next >= c.maxRuns) {
+	explore := func(b *build, budget float64, maxRuns int) {
+		deadline := time.Now().Add(time.Duration(budget * float64(time.Second)))
+		var mu sync.Mutex
+		next := 0
+		stop := false
+		var wg sync.WaitGroup
+		for w := 0; w < c.workers; w++ {
+			wg.Add(1)
+			go func() {
+				defer wg.Done()
+				for {
+					mu.Lock()
+					if stop || time.Now().After(deadline) || (maxRuns > 0 && next >= maxRuns) {
+						mu.Unlock()
+						return
+					}
+					from := next
+					cnt := c.chunk
+					if b.race {
+						cnt = c.chunk / 4
+					}
+					if maxRuns > 0 && from+cnt > maxRuns {
+						cnt = maxRuns - from
+					}
+					next += cnt
 					mu.Unlock()
-					return
-				}
-				from := next
-				cnt := c.chunk
-				if c.maxRuns > 0 && from+cnt > c.maxRuns {
-					cnt = c.maxRuns - from
-				}
-				next += cnt
-				mu.Unlock()
-				remain := time.Until(deadline).Seconds()
-				if remain < 0.2 {
-					return
-				}
-				r, err := b.runWorker(&spec{Profile: c.profile, Tier: c.tier, Seed: c.seed, From: from, Count: cnt, MaxWallS: remain, Known: knownSigs}, time.Duration(remain+120)*time.Second)
-				mu.Lock()
-				if err != nil {
-					a.workersFailed = append(a.workersFailed, err.Error())
-					stop = true
-				} else {
-					a.add(r)
-					for _, v := range r.Violations {
-						if !v.Known {
-							stop = true
+					remain := time.Until(deadline).Seconds()
+					if remain < 0.2 {
+						return
+					}
+					r, err := b.runWorker(&spec{Profile: c.profile, Tier: c.tier, Seed: c.seed, From: from, Count: cnt, MaxWallS: remain, Known: knownSigs}, time.Duration(remain+180)*time.Second)
+					mu.Lock()
+					if err != nil {
+						a.workersFailed = append(a.workersFailed, err.Error())
+						stop = true
+					} else {
+						if b.race {
+							a.raceRuns += r.Runs
+							for i := range r.Violations {
+								r.Violations[i].Race = true
+							}
+						}
+						a.add(r)
+						for _, v := range r.Violations {
+							if !v.Known {
+								stop = true
+							}
 						}
 					}
+					mu.Unlock()
 				}
-				mu.Unlock()
-			}
-		}()
+			}()
+		}
+		wg.Wait()
 	}
-	wg.Wait()
+	var braceBuild *build
+	if c.prop == "C20" {
+		explore(b, c.budget*0.5, c.maxRuns)
+		if len(a.workersFailed) == 0 {
+			t0 := time.Now()
+			braceBuild = prepare(true)
+			defer braceBuild.cleanup()
+			buildS += time.Since(t0).Seconds()
+			explore(braceBuild, c.budget*0.5, c.maxRuns)
+		}
+	} else {
+		explore(b, c.budget, c.maxRuns)
+	}
 	if len(a.workersFailed) > 0 {
 		fmt.Fprintf(os.Stderr, "vsim: worker trouble (exit 2, not a violation): %s\n", a.workersFailed[0])
 		return 2
@@ -463,7 +500,11 @@ func runCheck(c *checkCfg) int {
 			fmt.Printf("NOTE: side observation %s (%s) in run seed %d - reported by that property's own check\n", key, v.Violation.Sig, v.RunSeed)
 			continue
 		}
-		path, ok, msg := finalizeViolation(b, c, &v)
+		fb := b
+		if v.Race && braceBuild != nil {
+			fb = braceBuild
+		}
+		path, ok, msg := finalizeViolation(fb, c, &v)
 		if !ok {
 			fmt.Fprintf(os.Stderr, "vsim: violation %s did not reproduce on replay (%s): treated as harness trouble\n", key, msg)
 			if exit == 0 {
@@ -767,6 +808,12 @@ func writeEvidence(c *checkCfg, b *build, a *agg, nviol int, wall, buildS float6
 		"warnings":            warnings,
 		"exhaustive":          false,
 	}
+	if c.prop == "C20" {
+		cov["race_build_runs"] = a.raceRuns
+		cov["race_reports_total"] = a.probes["race-reports-total"]
+		cov["race_reports_attributed_to_harness"] = a.probes["race-reports-harness-noise"]
+		cov["race_instrument"] = "same schedules executed by a -race build with the scheduler's synchronisation hidden (RaceDisable around hand-offs, one-directional controller->task RaceRelease/RaceAcquire); a report counts only if the innermost non-stdlib frames of both accesses are pike's or its dependencies'"
+	}
 	ev := map[string]interface{}{
 		"property_id": c.prop,
 		"tier":        c.tier,
@@ -792,7 +839,7 @@ func head(s []string, n int) []string {
 	return s
 }
 
-var allProfiles = []string{"C01", "C02", "C03", "C04", "C05", "C06", "C07", "C08", "C09", "C10", "C11", "C15", "C16", "C18", "C19"}
+var allProfiles = []string{"C01", "C02", "C03", "C04", "C05", "C06", "C07", "C08", "C09", "C10", "C11", "C15", "C16", "C18", "C19", "C20"}
 
 var realComponents = []string{
 	"pike server pipeline assembled by server.Start (error, fresh, responder, cache, proxy middleware)",
@@ -836,7 +883,7 @@ func cmdReplay(args []string) int {
 	if err := json.Unmarshal(data, &f); err != nil {
 		fatal2("%v", err)
 	}
-	b := prepare(strings.HasSuffix(f.Profile, "race"))
+	b := prepare(f.Violation.Kind == "data-race")
 	defer b.cleanup()
 	r, err := b.runWorker(&spec{Profile: f.Profile, Replay: &replay{Plan: f.Plan, Schedule: f.Schedule}, KeepTrace: true}, 300*time.Second)
 	if err != nil {
